@@ -158,6 +158,15 @@ def run_main(argv, trigger=None, stdin=None, close_stdin_at_end=True, keep_input
         return orig_save(self)
     pg.PcfgGrammar.print_guess = rec_print
     pq.PcfgQueue.next = rec_next
+    orig_qinit = pq.PcfgQueue.__init__
+    def rec_qinit(self, *a, **k):
+        orig_qinit(self, *a, **k)
+        # the queue is ready (built or restored).  A request that was typed before the program looked - and a helper thread that is already running - get the
+        # time to meet here, whatever the speed of the machine: a tool that starts its keyboard thread before the queue is ready sees the request at this point
+        if st.script and ctx.kthreads():
+            wait_until(lambda: not st.script and (st.waiting or not any(t.is_alive() for t in ctx.kthreads())), timeout=1.0)
+            res.events.append(('QUEUE-READY-WITH-PENDING-REQUEST', len(res.pops)))
+    pq.PcfgQueue.__init__ = rec_qinit
     pg.PcfgGrammar.create_guesses = rec_create
     cs.CrackingSession._save_session = rec_save
     old_input, old_argv = builtins.input, sys.argv
@@ -200,6 +209,7 @@ def run_main(argv, trigger=None, stdin=None, close_stdin_at_end=True, keep_input
     finally:
         pg.PcfgGrammar.print_guess = orig_print
         pq.PcfgQueue.next = orig_next
+        pq.PcfgQueue.__init__ = orig_qinit
         pg.PcfgGrammar.create_guesses = orig_create
         cs.CrackingSession._save_session = orig_save
         sys.argv = old_argv
